@@ -6,6 +6,7 @@ Everything random comes from the `random.Random` passed in."""
 import enum
 import hashlib
 import math
+import os
 
 # --------------------------------------------------------------------------------------
 # Modelica text generator (subset pymoca's grammar and listener handle)
@@ -338,6 +339,90 @@ def extract(parser_file=None):
     if "parse" not in funcs:
         raise Unrecognised("no function parse")
     info = {"caught_unpickle": None, "caught_integrity": None, "isolation": [], "sql": [], "recover": False, "write_tolerant": False}
+    # string constants: module level, and (while a local helper is inlined) its parameters bound to the arguments
+    envs = [{}]
+
+    def resolve(node):
+        """The string an expression evaluates to, with `?` for parts that are not constant; None if hopeless.
+        Only the statement keyword matters for the lock model, so partial knowledge is enough."""
+        import re
+        if isinstance(node, ast.Constant):
+            return node.value if isinstance(node.value, str) else None
+        if isinstance(node, ast.Name):
+            return envs[-1].get(node.id)
+        if isinstance(node, ast.JoinedStr):
+            out = ""
+            for v in node.values:
+                if isinstance(v, ast.Constant):
+                    out += str(v.value)
+                else:
+                    r = resolve(v.value) if isinstance(v, ast.FormattedValue) else None
+                    out += r if r is not None else "?"
+            return out
+        if isinstance(node, ast.Call) and isinstance(node.func, ast.Attribute) and node.func.attr == "format":
+            t = resolve(node.func.value)
+            if t is None:
+                return None
+            args = [resolve(a) for a in node.args]
+            kws = {k.arg: resolve(k.value) for k in node.keywords if k.arg}
+            try:
+                return t.format(*[a if a is not None else "?" for a in args],
+                                **{k: (v if v is not None else "?") for k, v in kws.items()})
+            except Exception:
+                return re.sub(r"\{[^{}]*\}", "?", t)
+        if isinstance(node, ast.Call) and isinstance(node.func, ast.Attribute) and node.func.attr in ("strip", "lstrip", "rstrip", "upper", "lower") \
+                and not node.args:
+            t = resolve(node.func.value)
+            return getattr(t, node.func.attr)() if t is not None else None
+        if isinstance(node, ast.BinOp) and isinstance(node.op, ast.Mod):
+            t = resolve(node.left)
+            if t is None:
+                return None
+            vals = node.right.elts if isinstance(node.right, ast.Tuple) else [node.right]
+            it = iter([resolve(v) for v in vals])
+            return re.sub(r"%[sdr]", lambda m: (next(it, None) or "?"), t)
+        if isinstance(node, ast.BinOp) and isinstance(node.op, ast.Add):
+            a, b = resolve(node.left), resolve(node.right)
+            if a is None and b is None:
+                return None
+            return (a if a is not None else "?") + (b if b is not None else "?")
+        return None
+
+    for n in mod.body:
+        if isinstance(n, ast.Assign) and len(n.targets) == 1 and isinstance(n.targets[0], ast.Name):
+            v = resolve(n.value)
+            if v is not None:
+                envs[0][n.targets[0].id] = v
+        elif isinstance(n, ast.AnnAssign) and isinstance(n.target, ast.Name) and n.value is not None:
+            v = resolve(n.value)
+            if v is not None:
+                envs[0][n.target.id] = v
+
+    def bind(fn, call):
+        """parameters of an inlined helper -> constant strings, where the arguments are such"""
+        env = dict(envs[0])
+        params = [a.arg for a in fn.args.posonlyargs + fn.args.args]
+        for name, arg in zip(params, call.args):
+            v = resolve(arg)
+            if v is not None:
+                env[name] = v
+            else:
+                env.pop(name, None)
+        for k in call.keywords:
+            if k.arg:
+                v = resolve(k.value)
+                if v is not None:
+                    env[k.arg] = v
+                else:
+                    env.pop(k.arg, None)
+        # defaults of parameters not passed
+        defaults = fn.args.defaults
+        for name, d in zip(params[len(params) - len(defaults):], defaults):
+            if name not in env and name not in [k.arg for k in call.keywords] and params.index(name) >= len(call.args):
+                v = resolve(d)
+                if v is not None:
+                    env[name] = v
+        return env
 
     def has_sql(fn, seen=()):
         for node in ast.walk(fn):
@@ -354,6 +439,8 @@ def extract(parser_file=None):
             return b
         if b == ["skip"]:
             return a
+        if a[0] == "seq":                      # right-nested: the tree does not depend on how helpers are cut
+            return ["seq", a[1], seq(a[2], b)]
         return ["seq", a, b]
 
     def calls_of(st, guarded, depth):
@@ -366,9 +453,9 @@ def extract(parser_file=None):
             if isinstance(f, ast.Attribute) and f.attr in ("executemany", "executescript"):
                 raise Unrecognised(f.attr)
             if isinstance(f, ast.Attribute) and f.attr == "execute":
-                s = _const_str(node.args[0]) if node.args else None
-                if s is None:
-                    raise Unrecognised("execute() with a non-literal statement")
+                s = resolve(node.args[0]) if node.args else None
+                if s is None or not s.split() or s.split()[0].startswith("?"):
+                    raise Unrecognised("execute() with a statement whose keyword is not a constant")
                 info["sql"].append(" ".join(s.split()))
                 found.append(["stmt", sql_kind(s), guarded])
             elif isinstance(f, ast.Attribute) and f.attr in ("commit", "rollback"):
@@ -384,7 +471,11 @@ def extract(parser_file=None):
             elif isinstance(f, ast.Name) and f.id in funcs and has_sql(funcs[f.id]):
                 if depth > 3:
                     raise Unrecognised("call depth")
-                found.append(walk(funcs[f.id].body, guarded, depth + 1)[0])
+                envs.append(bind(funcs[f.id], node))
+                try:
+                    found.append(walk(funcs[f.id].body, guarded, depth + 1)[0])
+                finally:
+                    envs.pop()
         if len(found) > 1:
             raise Unrecognised("several SQL effects in one statement: " + ast.unparse(st)[:60])
         return found[0] if found else ["skip"]
@@ -445,7 +536,7 @@ def extract(parser_file=None):
                 # the shape of fix C01-2: a DatabaseError of the cache write (the INSERT) is not propagated; the
                 # handler forgets the earlier check and parse() goes on to return the tree
                 inserts = contains(st.body, lambda n: isinstance(n, ast.Call) and isinstance(n.func, ast.Attribute)
-                                   and n.func.attr == "execute" and n.args and (_const_str(n.args[0]) or "").strip().upper().startswith("INSERT"))
+                                   and n.func.attr == "execute" and n.args and (resolve(n.args[0]) or "").strip().upper().startswith("INSERT"))
                 ends_raising = bool(h.body) and isinstance(h.body[-1], ast.Raise)
                 if forgets and inserts and catches_db and not retries and not ends_raising:
                     info["write_tolerant"] = True
@@ -482,6 +573,78 @@ def extract(parser_file=None):
     return {"prog": prog, "caught_unpickle": info["caught_unpickle"], "caught_integrity": info["caught_integrity"] or [],
             "isolation_none": all(i == "None" for i in info["isolation"]), "sql": info["sql"],
             "recover": info["recover"], "write_tolerant": info["write_tolerant"]}
+
+
+def prog_of_traces(traces):
+    """The prefix tree of a set of traces [(kind, guarded), …] as a program: its paths are exactly the traces."""
+    def build(ts):
+        uniq = []
+        for t in ts:
+            if t not in uniq:
+                uniq.append(t)
+        if all(len(t) == 0 for t in uniq):
+            return ["skip"]
+        groups = {}
+        for t in uniq:
+            if t:
+                groups.setdefault(tuple(t[0]), []).append(list(t[1:]))
+        alts = []
+        for (k, g), rest in groups.items():
+            tail = build(rest)
+            head = ["stmt", k, bool(g)]
+            alts.append(head if tail == ["skip"] else ["seq", head, tail])
+        node = alts[-1]
+        for a in reversed(alts[:-1]):
+            node = ["choice", a, node]
+        if any(len(t) == 0 for t in uniq):
+            node = ["choice", ["skip"], node]
+        return node
+    return build([[tuple(x) for x in t] for t in traces])
+
+
+_EXTRACT_CACHE = {}
+
+
+def extract_any(ctx=None, scratch=None):
+    """The facts the models take from the source: static extraction (Python `ast`); if the source has a shape the
+    extractor does not understand, dynamic extraction (program = prefix tree of recorded statement traces of the
+    real parse() over a scenario matrix, flags probed behaviourally).  Only if both fail a broken tie is reported
+    (returns None).  The evidence records which one was used."""
+    import pymoca.parser
+    f = pymoca.parser.__file__
+    key = (f, os.path.getmtime(f), bool(os.environ.get("VERIF_A01_FORCE_DYNAMIC")))
+    if key not in _EXTRACT_CACHE:
+        res, static_err = None, None
+        if not os.environ.get("VERIF_A01_FORCE_DYNAMIC"):
+            try:
+                res = extract(f)
+                res["derived"] = "static"
+            except Exception as e:
+                static_err = "%s: %s" % (type(e).__name__, e)
+        else:
+            static_err = "forced by VERIF_A01_FORCE_DYNAMIC"
+        if res is None:
+            try:
+                import tempfile
+                from harness.props import c02
+                base = scratch or tempfile.mkdtemp(prefix="a01-dyn-")
+                res = c02.extract_dynamic(base)
+                res["static_error"] = static_err
+            except Exception as e:
+                res = {"failed": "static: %s; dynamic: %s: %s" % (static_err, type(e).__name__, e)}
+        _EXTRACT_CACHE[key] = res
+    res = _EXTRACT_CACHE[key]
+    if "failed" in res:
+        if ctx is not None:
+            ctx.tie_broken("translator:sql-program", res["failed"])
+        return None
+    if ctx is not None:
+        ctx.extra["program_source"] = {"derived": res["derived"], "static_error": res.get("static_error"),
+                                       "scenarios": res.get("scenarios")}
+        if res["derived"] != "static" and not any("trace-derived" in n for n in ctx.notes):
+            ctx.notes.append("statement program is trace-derived (static extraction did not recognise the source: %s)"
+                             % res.get("static_error"))
+    return res
 
 
 def prog_to_lean(p, ind=2):
